@@ -17,6 +17,7 @@ import (
 	"io"
 	"net"
 	"net/http"
+	"net/url"
 	"os"
 	"strings"
 	"time"
@@ -35,11 +36,12 @@ type scenario struct {
 	Mode   string   // plain | blind | mitm-plain | mitm-tls
 	Beh    []string // behaviour per exchange on connection 0 (for CONNECT modes Beh[0] is the CONNECT exchange)
 	Second bool     // a second connection runs one plain "pass" exchange concurrently
+	Down   bool     // blind CONNECT only: the proxy is configured with a downstream proxy (the dialled peer answers the forwarded CONNECT itself)
 	Pipe   bool     // the client writes all its requests before it reads the first response
 }
 
 func (s scenario) String() string {
-	return fmt.Sprintf("mode=%s beh=%v second=%v pipelined=%v", s.Mode, s.Beh, s.Second, s.Pipe)
+	return fmt.Sprintf("mode=%s beh=%v second=%v pipelined=%v downstream=%v", s.Mode, s.Beh, s.Second, s.Pipe, s.Down)
 }
 
 type call struct {
@@ -239,6 +241,14 @@ func run(sc scenario) (body func(), check func(r *vrt.Result) []finding) {
 			a, b := simnet.Pipe("proxy>target", "target")
 			vrt.GoNamed("target", func() {
 				br := bufio.NewReader(b)
+				if sc.Down {
+					// the downstream proxy: answer the forwarded CONNECT, then behave as the tunnel's target
+					if req, err := http.ReadRequest(br); err != nil || req.Method != "CONNECT" {
+						b.Close()
+						return
+					}
+					b.Write([]byte("HTTP/1.1 200 OK\r\n\r\n"))
+				}
 				line, err := br.ReadString('\n')
 				if err == nil {
 					b.Write([]byte("echo:" + line))
@@ -248,6 +258,10 @@ func run(sc scenario) (body func(), check func(r *vrt.Result) []finding) {
 			})
 			return a, nil
 		})
+		if sc.Down {
+			u, _ := url.Parse("http://downstream.test:3128")
+			w.Proxy.SetDownstreamProxy(u)
+		}
 		w.Start()
 		client := func(name string, mode string, beh []string) {
 			o := &clientObs{conn: name}
@@ -633,6 +647,9 @@ func scenarios(tier string) []scenario {
 	})
 	for _, b0 := range []string{"pass", "reqerr", "reserr", "dialerr", "hijack-req", "hijack-res", "dialerr+hijack-res", "dialerr+reserr", "reqerr+hijack-res", "skip", "skip+reserr", "skip+hijack-res", "preapi+skip"} {
 		out = append(out, scenario{Mode: "blind", Beh: []string{b0}}, scenario{Mode: "blind", Beh: []string{b0}, Second: true})
+		if !has(b0, "dialerr") {
+			out = append(out, scenario{Mode: "blind", Beh: []string{b0}, Down: true})
+		}
 	}
 	for _, mode := range []string{"mitm-plain", "mitm-tls"} {
 		for _, b0 := range []string{"pass", "reqerr", "reserr", "hijack-req", "hijack-res", "reqerr+hijack-res"} {
